@@ -297,7 +297,20 @@ def absOut (h : Heap Est) : HOut OR T → Out Unit
 
 /-- frame-level and scene-level divisions agree: the critical filter's target labels are the manager's
 (the assumption of `ManagerTracking.lean` and `harness/props/c13.py`, here an explicit hypothesis of the
-refinement theorem only) -/
+refinement theorem only).
+
+NOT guaranteed by the code: `evaluate_frame` divides by `critical_object_filter_config.target_labels` (an argument
+of every `add_frame_result` call, `perception_frame_config.py: CriticalObjectFilterConfig`), `get_scene_result` and
+the metrics iterate over the manager's `target_labels`.  What the code does when the two lists differ (run against
+/repo; model statements in `Properties/C13Labels.lean`):
+* critical labels a permutation or a superset of the manager's: nothing — the dicts are read by key, the buckets
+  of every manager label coincide at both levels (the hypothesis holds after re-indexing `Det` by the manager's order);
+* critical labels not covering a manager label `l`: `KeyError(l)` in `Map.__init__` / `TrackingMetricsScore.__init__` /
+  `ClassificationMetricsScore.__init__` (`object_results_dict[target_label]`), raised inside `evaluate_frame`, i.e. inside
+  `add_frame_result` BEFORE `self.frame_results.append(result)`: the call raises, no result is stored, dataset and
+  estimate list untouched (DESIGN §7 O2; `C13.detectFrame_error_of_uncovered_label`, `C13.frameMap2_keyError_first`).
+So the theorems that assume `LabelsAgree` are about `add_frame_result` calls that RETURN with a critical filter over
+the manager's labels; for any other returning call the scores agree by key, for a non-covering one there is no result. -/
 def LabelsAgree (sem : HSem Est OR C T) : Prop :=
   ∀ c ors gts, sem.detOf c ors gts = ⟨sem.bucketsOf ors, sem.numGtOf gts⟩
 
